@@ -16,6 +16,7 @@ import (
 	"github.com/ipld/go-ipld-prime"
 	"github.com/ipld/go-ipld-prime/datamodel"
 	"github.com/ipld/go-ipld-prime/linking"
+	"github.com/ipld/go-ipld-prime/linking/preload"
 	"github.com/ipld/go-ipld-prime/traversal"
 	"github.com/ipld/go-ipld-prime/traversal/selector"
 	selbuilder "github.com/ipld/go-ipld-prime/traversal/selector/builder"
@@ -106,6 +107,23 @@ func init() {
 		return progressFor(ls).WalkMatching(kept, sel, unixfsnode.BytesConsumingMatcher)
 	}})
 }
+
+func init() {
+	// the preloading view through a link system that has no storage to read from (one set up for
+	// building only): nothing of the entity can be loaded, so for an entity of more than one block the
+	// only right answer is an error
+	entityForms = append(entityForms, accessForm{"preload-reifier-without-read-storage", func(ls *ipld.LinkSystem, raw ipld.Node) error {
+		ls2 := *ls
+		ls2.StorageReadOpener = nil
+		_, err := ls.KnownReifiers["unixfs-preload"](ipld.LinkContext{Ctx: bg}, raw, &ls2)
+		if err != nil {
+			return errNoReadStorage
+		}
+		return nil
+	}})
+}
+
+var errNoReadStorage = fmt.Errorf("refused: no storage to read from")
 
 var errFormNA = fmt.Errorf("access form does not apply to this entity")
 
@@ -210,6 +228,13 @@ func checkEntity(c *mon.Case, e *entity, faults bool) {
 			continue
 		}
 		if rerr == errFormNA {
+			continue
+		}
+		if form.Name == "preload-reifier-without-read-storage" {
+			c.Count("preloads_without_read_storage", 1)
+			if len(e.Blocks) > 0 && rerr == nil {
+				c.Violation("C06|partial-success|"+form.Name, "the preload reifier, handed a link system without read storage, returned a node and no error for %s %s although none of its %d blocks below the root can be loaded", e.Kind, e.Name, len(e.Blocks))
+			}
 			continue
 		}
 		if rerr != nil {
@@ -511,7 +536,7 @@ func TestC06(t *testing.T) {
 				for _, b := range ent {
 					allowed[b.String()] = true
 				}
-				for ti, target := range []selbuilder.SelectorSpec{unixfsnode.MatchUnixFSPreloadSelector, unixfsnode.MatchUnixFSEntitySelector, unixfsnode.MatchUnixFSEntitySelector, unixfsnode.MatchUnixFSEntitySelector} {
+				for ti, target := range []selbuilder.SelectorSpec{unixfsnode.MatchUnixFSPreloadSelector, unixfsnode.MatchUnixFSEntitySelector, unixfsnode.MatchUnixFSEntitySelector, unixfsnode.MatchUnixFSEntitySelector, unixfsnode.MatchUnixFSEntitySelector} {
 					st := base.Clone()
 					st.Logging = true
 					ls := st.LinkSystem(true)
@@ -533,6 +558,12 @@ func TestC06(t *testing.T) {
 							}
 							prog.Cfg.StartAtPath = datamodel.NewPath(segs)
 							c.Count("resumed_walks", 1)
+						}
+						if ti == 4 {
+							// a walk configured with a preloader (the two-phase walk that lets a caller fetch
+							// links ahead); this one looks at the links and fetches nothing
+							prog.Cfg.Preloader = func(preload.PreloadContext, preload.Link) {}
+							c.Count("walks_with_preloader", 1)
 						}
 						if ti == 3 {
 							// a walker told to follow every link at most once (each link on a path is met once)
